@@ -3,7 +3,12 @@
 Case grammar (one line = one table + a list of operations; P/X change the object, queries run on a copy of it):
   t1 <x_dim> <f_dim> <list xs> <list ys> <nops> op*
   h1 ... (as t1)   the same, but every query goes to the ONE live object (search history); expected values are those of t1
+  d1 | e1 <x_dim> <f_dim> <table rows (x, f)> <nops> op*      the constructor from a data table (d1 as t1, e1 as h1)
+  t0 | h0 <nops> op*                                           the default constructor (abscissae -1, 0, 1, ordinates 0)
   t2 <x_dim> <y_dim> <f_dim> <list xs> <list ys> <table f> <nops> op2*
+  h2 ... (as t2)   every query on the ONE live object
+  d2 <x_dim> <y_dim> <f_dim> <table rows (x, y, f), x-major> <nops> op2*    Interpolation_2D(data_table, ...)
+  z2 <nops> op2*                                               Interpolation_2D()
  op : P c | X c            Set_Prefactor(c) | Multiply(c)                                   (no output)
       I x | D k x | N a b | m a b | M a b | g | G        Interpolate, Derivative, Integrate, Local_Min/Max, Global_Min/Max
       E a b n   Local_Minimum(a,b), Local_Maximum(a,b), then Interpolate on the (n+1)-point grid of [a,b]
@@ -13,7 +18,7 @@ Case grammar (one line = one table + a list of operations; P/X change the object
       B a b     Integrate(a,b), Local_Minimum(a,b), Local_Maximum(a,b)
       U a x d   Integrate(a,x+d), Integrate(a,x-d), Interpolate(x), Derivative(x,2)
  op2: P c | X c | I x y | g | G | Z n   ((n+1)^2 grid of the whole domain)"""
-import math
+import math, sys
 from vcheck import Case, hx, flist
 import C01
 from C01 import scaled, locate_ref, steffen_ref, seg_slack, table_ok, Rd, is_int_tok, EPS
@@ -49,6 +54,7 @@ def rand_pref(rng):
     if r < 0.7: return rng.choice([-1, 1]) * 10 ** rng.uniform(-30, -10)
     if r < 0.85: return rng.choice([-1, 1]) * 10 ** rng.uniform(10, 30)
     if r < 0.9: return 1.0
+    if r < 0.92: return rng.choice([0.0, -0.0])
     return rng.choice([-1, 1]) * rng.uniform(0.1, 10)
 
 
@@ -138,7 +144,102 @@ def zone_aimed_table(rng):
     return xs, ys
 
 
-def line1(xd, fd, xs, ys, ops, op="t1"): return f"{op} {hx(xd)} {hx(fd)} {flist(xs)} {flist(ys)} {len(ops)} " + " ".join(ops)
+DBL_MAX = sys.float_info.max
+DBL_MIN = sys.float_info.min
+
+
+def reshape_values(rng, ys):
+    """sign / level structure of the ordinates: tables lying entirely on one side of zero, touching zero, constant, or riding on a large offset"""
+    kind = rng.choice(["allneg", "allneg", "allpos", "nonpos", "nonneg", "const", "zero", "offset"])
+    mx = max([abs(y) for y in ys] + [0.0])
+    if kind == "allneg": out = [-abs(y) - (mx * 2.0 ** -20 if rng.random() < 0.5 else 0.0) for y in ys]
+    elif kind == "allpos": out = [abs(y) + (mx * 2.0 ** -20 if rng.random() < 0.5 else 0.0) for y in ys]
+    elif kind == "nonpos": out = [0.0 if rng.random() < 0.3 else -abs(y) for y in ys]
+    elif kind == "nonneg": out = [0.0 if rng.random() < 0.3 else abs(y) for y in ys]
+    elif kind == "const": out = [rng.choice([-1, 1]) * (mx if mx > 0 else 1.0)] * len(ys)
+    elif kind == "zero": out = [0.0 * rng.choice([-1, 1])] * len(ys)
+    else:
+        off = rng.choice([-1, 1]) * (mx if mx > 0 else 1.0) * 10 ** rng.uniform(0.1, 6); out = [y + off for y in ys]
+    return out, kind
+
+
+def edge_table(rng, low):
+    """ordinates at the edge of the double range, to be queried under a compensating prefactor: the scaled curve, its extrema and integrals are
+    ordinary numbers, and every intermediate quantity of the unscaled cubic and of its antiderivative (largest: d_j * x) stays finite by construction:
+      |y| <= Y, |y_{j+1}-y_j| <= delta*Y, h >= 1/2:  |a h^3|,|b h^2|,|c h| <= 6,9,2 * delta*Y,  antiderivative terms <= 5.5*delta*Y*h + Y*max|x|  <= 0.9*DBL_MAX/k (the margin covers the 1 % extrapolation zone).
+    k runs down a ladder to just above 1; for k < (window length)/max|x| the UNSCALED integral over the window exceeds DBL_MAX.
+    low = True: the mirror image, |y| ~ 1e-295..1e-280 (still normal numbers) under a huge prefactor."""
+    N = rng.choice([3, 4, 5, 7, 9]); u = 2.0 ** rng.randint(0, 6)
+    hs = [u * rng.randint(4, 32) / 8.0 for _ in range(N - 1)]; tot = sum(hs)
+    pos = rng.choice(["sym", "sym", "mid", "left0", "right0", "neg", "pos"])
+    if pos == "sym": x0 = -tot / 2
+    elif pos == "mid": x0 = -u * round(tot / u * rng.uniform(0.1, 0.9) * 8) / 8.0
+    elif pos == "left0": x0 = 0.0
+    elif pos == "right0": x0 = -tot
+    elif pos == "neg": x0 = -tot - u * rng.randint(1, 16)
+    else: x0 = u * rng.randint(1, 16)
+    xs = [x0]
+    for h in hs: xs.append(xs[-1] + h)
+    R = max(abs(xs[0]), abs(xs[-1]), 1.0); hmax = max(hs)
+    delta = 10 ** rng.uniform(-9, -2.5)
+    shape = rng.choice(["random", "bump", "monotone", "alternating", "const"])
+    if shape == "random": w = [rng.random() for _ in xs]
+    elif shape == "bump": m = rng.randrange(N); w = [abs(i - m) / float(N) for i in range(N)]
+    elif shape == "monotone": w = sorted(rng.random() for _ in xs)
+    elif shape == "alternating": w = [float(i % 2) for i in range(N)]
+    else: w = [0.0] * N
+    if low:
+        Y = 10 ** rng.uniform(-295, -280); k = None
+    else:
+        k = rng.choice([1.02, 1.1, 1.3, 1.7, 1.95, 2.5, 5.0, 50.0, 1e4, 1e10])
+        Y = (0.9 * DBL_MAX / k) / (5.5 * delta * hmax + R * (1 + 17 * delta))
+    sg = rng.choice([-1, 1]); ys = [sg * Y * (1 - delta * t) for t in w]
+    T = 10 ** rng.uniform(-3, 6) if rng.random() < 0.7 else 1.0
+    return xs, ys, Y, T, shape, k
+
+
+def split_pref(rng, c, fresh):
+    """a sequence of Set_Prefactor / Multiply calls that leaves the prefactor c (fresh: the prefactor is still 1, so Multiply alone may be used)"""
+    r = rng.random()
+    if r < 0.4: return [f"P {hx(c)}"]
+    if r < 0.55 and fresh: return [f"X {hx(c)}"]
+    if r < 0.7: return [f"P {hx(rand_pref(rng))}", f"P {hx(c)}"]
+    e = math.frexp(c)[1] // 2; c1 = math.ldexp(1.0, e); c2 = c / c1       # exact split by a power of two
+    ops = [f"P {hx(c1)}", f"X {hx(c2)}"] if rng.random() < 0.5 or not fresh else [f"X {hx(c2)}", f"X {hx(c1)}"]
+    if rng.random() < 0.4: ops = ops + [f"X {hx(-1.0)}", f"X {hx(-1.0)}"]
+    return ops
+
+
+def window_ops(rng, xs):
+    """queries on long windows (whole domain, knot to knot, all but one segment), then the usual mix"""
+    N = len(xs); ops = []
+    for _ in range(3):
+        i = rng.choice([0, 0, 1]) if N > 3 else 0; j = N - 1 - (rng.choice([0, 0, 1]) if N > 3 else 0)
+        a, b = xs[i], xs[j]
+        if rng.random() < 0.3: a = inside(rng, xs, i)
+        if rng.random() < 0.3: b = inside(rng, xs, j - 1)
+        a, b = min(a, b), max(a, b)
+        m = xs[rng.randrange(i, j + 1)] if rng.random() < 0.6 else inside(rng, xs, rng.randrange(i, j))
+        ops += [rng.choice([f"Q {hx(a)} {hx(b)}", f"Q {hx(b)} {hx(a)}"]), f"B {hx(a)} {hx(b)}", f"A {hx(a)} {hx(m)} {hx(b)}"]
+        if rng.random() < 0.5: ops.append(f"E {hx(a)} {hx(b)} {NS}")
+    return ops + query_ops(rng, xs, 3)
+
+
+def ftable(rows): return f"{len(rows)} " + " ".join(flist(r) for r in rows)
+
+
+def line1(xd, fd, xs, ys, ops, op="t1"):
+    if op in ("d1", "e1"): return f"{op} {hx(xd)} {hx(fd)} {ftable([[x, y] for x, y in zip(xs, ys)])} {len(ops)} " + " ".join(ops)
+    return f"{op} {hx(xd)} {hx(fd)} {flist(xs)} {flist(ys)} {len(ops)} " + " ".join(ops)
+
+
+def line2(rng, xd, yd, fd, xs, ys, f, ops):
+    """a 2-D case through one of the constructors: lists (fresh / history mode) or the data table of rows (x, y, f)"""
+    r = rng.random()
+    if r < 0.25 and len(xs) * len(ys) <= 60:
+        return f"d2 {hx(xd)} {hx(yd)} {hx(fd)} {ftable([[x, y, f[i][j]] for i, x in enumerate(xs) for j, y in enumerate(ys)])} {len(ops)} " + " ".join(ops), "ctor:table"
+    op = "h2" if r < 0.45 else "t2"
+    return f"{op} {hx(xd)} {hx(yd)} {hx(fd)} {flist(xs)} {flist(ys)} {len(f)} " + " ".join(flist(q) for q in f) + f" {len(ops)} " + " ".join(ops), "ctor:lists" + ("-history" if op == "h2" else "")
 
 
 def generate(rng, tier):
@@ -147,11 +248,27 @@ def generate(rng, tier):
         N = C01.pick_N(rng, big)
         if N > 150 and not big: N = rng.randint(3, 150)
         xs, xm = C01.gen_xs(rng, N); ys, ym = C01.gen_ys(rng, N, xs); xd, fd = C01.pick_dims(rng)
+        if rng.random() < 0.2:
+            ys, k2 = reshape_values(rng, ys); ym = ym + "/" + k2
         sx = scaled(xd, xs); ops = []
         for _blk in range(rng.choice([1, 2, 3])):
             ops += pref_ops(rng); ops += query_ops(rng, sx, rng.choice([2, 4, 6]))
         hist = rng.random() < 0.3    # h1: all operations on one live object (search history), t1: queries on fresh copies
-        cs.append(Case(line1(xd, fd, xs, ys, ops, "h1" if hist else "t1"), ("1d", "history" if hist else "fresh", "x:" + xm, "y:" + ym)))
+        rows = rng.random() < 0.12 and N <= 60    # the constructor from a data table
+        cs.append(Case(line1(xd, fd, xs, ys, ops, ("e1" if hist else "d1") if rows else ("h1" if hist else "t1")),
+                       ("1d", "history" if hist else "fresh", "ctor:table" if rows else "ctor:lists", "x:" + xm, "y:" + ym)))
+    # default-constructed objects
+    for _ in range(120 if big else 8):
+        if rng.random() < 0.6:
+            ops = []
+            for _blk in range(rng.choice([1, 2])):
+                ops += pref_ops(rng); ops += query_ops(rng, [-1.0, 0.0, 1.0], rng.choice([2, 4]))
+            cs.append(Case(f"{rng.choice(['t0', 'h0'])} {len(ops)} " + " ".join(ops), ("1d", "ctor:default")))
+        else:
+            ops = []
+            for _blk in range(rng.choice([1, 2])):
+                ops += pref_ops(rng) + [f"Z {rng.choice([2, 4])}", "g", "G", f"I {hx(rng.uniform(-1, 1))} {hx(rng.uniform(-1, 1))}"]
+            cs.append(Case(f"z2 {len(ops)} " + " ".join(ops), ("2d", "ctor:default")))
     # tables aimed at the extrapolation zone
     for _ in range(1500 if big else 120):
         xs, ys = zone_aimed_table(rng); ops = pref_ops(rng)
@@ -160,6 +277,19 @@ def generate(rng, tier):
             ops.append(f"E {hx(xs[0] - tl * f)} {hx(xs[0] + (xs[1] - xs[0]) * 0.01)} {NS}")
             ops.append(f"E {hx(xs[-1] - (xs[-1] - xs[-2]) * 0.01)} {hx(xs[-1] + tr * f)} {NS}")
         cs.append(Case(line1(-1.0, -1.0, xs, ys, ops), ("1d", "zone-aimed")))
+    # ordinates at the edge of the double range under a compensating prefactor (and the mirror image: tiny ordinates, huge prefactor)
+    for _ in range(2500 if big else 70):
+        low = rng.random() < 0.3; xs, ys, Y, T, shape, k = edge_table(rng, low)
+        c = rng.choice([-1, 1]) * T / Y; fd = -1.0; ys0 = ys
+        if rng.random() < 0.4:     # reach the magnitude through the unit argument (a power of two: the scaled table is exactly ys)
+            fd = 2.0 ** (rng.randint(1, 300) * (-1 if low else 1)); ys0 = [y / fd for y in ys]
+        ops = split_pref(rng, c, True) + window_ops(rng, xs)
+        r = rng.random()
+        if r < 0.3: ops += [f"X {hx(rng.choice([-1.0, 2.0, -0.5, 0.25]))}"] + window_ops(rng, xs)
+        elif r < 0.45: ops += [f"P {hx(rng.choice([0.0, -0.0]))}"] + window_ops(rng, xs)
+        elif r < 0.6: ops += split_pref(rng, -c, False) + window_ops(rng, xs)
+        hist = rng.random() < 0.3
+        cs.append(Case(line1(-1.0, fd, xs, ys0, ops, "h1" if hist else "t1"), ("1d", "edge-low" if low else "edge-high", "shape:" + shape, "k:" + str(k))))
     # guards: reversed limits of the extremum functions, limits outside the tolerance, malformed tables
     for _ in range(600 if big else 60):
         N = rng.choice([3, 5, 12]); xs, xm = C01.gen_xs(rng, N); ys, ym = C01.gen_ys(rng, N, xs)
@@ -178,35 +308,89 @@ def generate(rng, tier):
     for _ in range(1500 if big else 110):
         Nx, Ny = rng.choice([2, 3, 5, 9]), rng.choice([2, 4, 7, 12])
         xs, xm = C01.gen_xs(rng, Nx); ys, ym = C01.gen_xs(rng, Ny)
-        fm = rng.choice(["random", "mixedmag", "plateau", "spike", "signed"]); sc = 10 ** rng.uniform(-20, 20) if rng.random() < 0.4 else 1.0
+        fm = rng.choice(["random", "mixedmag", "plateau", "spike", "signed", "onesided", "onesided", "const", "subnormal", "edge", "offset"]); sc = 10 ** rng.uniform(-20, 20) if rng.random() < 0.4 else 1.0
         if fm == "random": f = [[sc * rng.gauss(0, 1) for _y in ys] for _x in xs]
         elif fm == "mixedmag": f = [[rng.choice([-1, 1]) * 10 ** rng.uniform(-20, 20) for _y in ys] for _x in xs]
         elif fm == "plateau": f = [[sc * rng.choice([0.0, 1.0, -1.0]) for _y in ys] for _x in xs]
         elif fm == "signed": f = [[sc * rng.choice([-1, 1]) * rng.uniform(1, 2) * rng.choice([1, 1, 0]) for _y in ys] for _x in xs]
+        elif fm == "onesided":     # the whole table on one side of zero (strictly, or touching it)
+            sg = rng.choice([-1, -1, 1]); z = rng.choice([0.0, 0.0, 0.2]); wide = rng.random() < 0.3
+            f = [[0.0 if rng.random() < z else sg * sc * (10 ** rng.uniform(-12, 12) if wide else rng.uniform(0.5, 2)) for _y in ys] for _x in xs]
+        elif fm == "const":
+            v = rng.choice([0.0, -0.0, sc, -sc, 1.0, -1.0]); f = [[v for _y in ys] for _x in xs]
+        elif fm == "subnormal":    # every entry below the smallest normal number
+            sg = rng.choice([-1, 1, 0]); f = [[(sg if sg else rng.choice([-1, 1])) * rng.randint(0, 2 ** rng.choice([1, 20, 51])) * 2.0 ** -1074 for _y in ys] for _x in xs]
+        elif fm == "offset":
+            off = rng.choice([-1, 1]) * sc * 10 ** rng.uniform(0.5, 6); f = [[off + sc * rng.gauss(0, 1) for _y in ys] for _x in xs]
+        elif fm == "edge":         # entries next to the largest double, queried under a compensating prefactor (below)
+            k = rng.choice([1.05, 1.2, 2.0, 10.0, 1e6]); sg = rng.choice([-1, 1, 0])
+            f = [[(sg if sg else rng.choice([-1, 1])) * DBL_MAX / k * rng.uniform(0.9, 1.0) for _y in ys] for _x in xs]
         else:
             f = [[1e-12 * rng.gauss(0, 1) for _y in ys] for _x in xs]; f[rng.randrange(Nx)][rng.randrange(Ny)] = rng.choice([-1, 1]) * 1e15
         xd, yd, fd = [(-1.0 if rng.random() < 0.6 else 10 ** rng.uniform(-4, 4)) for _k in range(3)]
+        if fm in ("edge", "subnormal"): fd = -1.0
         sx, sy = scaled(xd, xs), scaled(yd, ys); ops = []
         for _blk in range(rng.choice([1, 2, 3])):
-            ops += pref_ops(rng); ops.append(f"Z {rng.choice([4, 9])}"); ops += ["g", "G"]
+            if fm == "edge": ops += split_pref(rng, rng.choice([-1, 1]) * 10 ** rng.uniform(-3, 6) / DBL_MAX, _blk == 0)
+            elif fm == "subnormal" and rng.random() < 0.5: ops += split_pref(rng, rng.choice([-1, 1]) * 10 ** rng.uniform(280, 300), False)
+            else: ops += pref_ops(rng)
+            ops.append(f"Z {rng.choice([4, 9])}"); ops += ["g", "G"]
             x = sx[0] + (sx[-1] - sx[0]) * rng.random(); y = sy[0] + (sy[-1] - sy[0]) * rng.random()
             if sx[0] <= x <= sx[-1] and sy[0] <= y <= sy[-1]: ops.append(f"I {hx(x)} {hx(y)}")
-        cs.append(Case(f"t2 {hx(xd)} {hx(yd)} {hx(fd)} {flist(xs)} {flist(ys)} {len(f)} " + " ".join(flist(r) for r in f) + f" {len(ops)} " + " ".join(ops), ("2d", "f:" + fm)))
+        ln, ct = line2(rng, xd, yd, fd, xs, ys, f, ops)
+        cs.append(Case(ln, ("2d", "f:" + fm, ct)))
+    # malformed data tables (guards of the two data-table constructors)
+    for _ in range(200 if big else 14):
+        Nx, Ny = rng.choice([2, 3, 4]), rng.choice([2, 3, 5]); xs, _m = C01.gen_xs(rng, Nx, "dyadic"); ys, _m = C01.gen_xs(rng, Ny, "dyadic")
+        rows = [[x, y, rng.gauss(0, 1)] for x in xs for y in ys]; kind = rng.choice(["swap", "drop", "dup", "short", "long", "ymajor", "onex", "d1short", "d1long"])
+        if kind == "swap":
+            i, j = rng.sample(range(len(rows)), 2); rows[i], rows[j] = rows[j], rows[i]
+        elif kind == "drop": del rows[rng.randrange(len(rows))]
+        elif kind == "dup": rows[rng.randrange(len(rows))] = list(rows[rng.randrange(len(rows))])
+        elif kind == "short": rows[rng.randrange(len(rows))] = rows[0][:2]
+        elif kind == "long": rows[rng.randrange(len(rows))] = rows[0] + [1.0]
+        elif kind == "ymajor": rows = [[x, y, 1.0] for y in ys for x in xs]
+        elif kind == "onex": rows = [[xs[0], y, 1.0] for y in ys]
+        if kind in ("d1short", "d1long"):
+            r1 = [[x, rng.gauss(0, 1)] for x in C01.gen_xs(rng, 5, "dyadic")[0]]; r1[rng.randrange(5)] = [0.0] if kind == "d1short" else [0.0, 1.0, 2.0]
+            cs.append(Case(f"d1 {hx(-1.0)} {hx(-1.0)} {ftable(r1)} 1 g", ("1d", "guards", "table:" + kind)))
+        else:
+            if kind == "dup" and len(set((a, b) for a, b, _c in rows)) == len(rows): continue
+            cs.append(Case(f"d2 {hx(-1.0)} {hx(-1.0)} {hx(-1.0)} {ftable(rows)} 2 g G", ("2d", "guards", "table:" + kind)))
     return cs
 
 
 # ----------------------------------------------------------------------------------------------- parsing
 def parse_case(line):
     r = Rd(line); op = r.word(); d = {"op": op}
+    d["two_d"] = op in ("t2", "h2", "d2", "z2"); d["malformed"] = False
     if op in ("t1", "h1"):
         d["xd"], d["fd"] = r.num(), r.num(); d["xs0"], d["ys0"] = r.list(), r.list()
-    else:
+    elif op in ("d1", "e1"):
+        d["xd"], d["fd"] = r.num(), r.num(); rows = r.table()
+        d["malformed"] = not all(len(x) == 2 for x in rows)
+        d["xs0"] = [x[0] for x in rows if len(x) == 2]; d["ys0"] = [x[1] for x in rows if len(x) == 2]
+    elif op in ("t0", "h0"):
+        d["xd"] = d["fd"] = -1.0; d["xs0"] = [-1.0, 0.0, 1.0]; d["ys0"] = [0.0, 0.0, 0.0]
+    elif op in ("t2", "h2"):
         d["xd"], d["yd"], d["fd"] = r.num(), r.num(), r.num(); d["xs0"], d["ys0"] = r.list(), r.list(); d["f0"] = r.table()
+    elif op == "d2":
+        d["xd"], d["yd"], d["fd"] = r.num(), r.num(), r.num(); rows = r.table()
+        # specification of the constructor: the distinct first / second entries in increasing order span the grid, and the rows must list
+        # the grid x-major without gaps or repetitions
+        ok = all(len(x) == 3 for x in rows)
+        xs0 = sorted(set(x[0] for x in rows)) if ok else []; ys0 = sorted(set(x[1] for x in rows)) if ok else []
+        ok = ok and len(xs0) * len(ys0) == len(rows) and len(xs0) >= 2 and len(ys0) >= 2
+        ok = ok and all(rows[i * len(ys0) + j][0] == xs0[i] and rows[i * len(ys0) + j][1] == ys0[j] for i in range(len(xs0)) for j in range(len(ys0)))
+        d["malformed"] = not ok; d["xs0"], d["ys0"] = xs0, ys0
+        d["f0"] = [[rows[i * len(ys0) + j][2] for j in range(len(ys0))] for i in range(len(xs0))] if ok else []
+    else:   # z2
+        d["xd"] = d["yd"] = d["fd"] = -1.0; d["xs0"] = [-1.0, 0.0, 1.0]; d["ys0"] = [-1.0, 0.0, 1.0]; d["f0"] = [[0.0] * 3 for _ in range(3)]
     ops = []
     for _ in range(r.integer()):
         q = r.word()
         if q in ("P", "X"): ops.append((q, r.num()))
-        elif q == "I": ops.append((q, r.num()) if op != "t2" else (q, r.num(), r.num()))
+        elif q == "I": ops.append((q, r.num()) if not d["two_d"] else (q, r.num(), r.num()))
         elif q == "D": ops.append((q, r.integer(), r.num()))
         elif q in ("N", "m", "M", "Q", "B"): ops.append((q, r.num(), r.num()))
         elif q in ("g", "G"): ops.append((q,))
@@ -245,7 +429,8 @@ def query_points(q):
 
 
 def expected_exit(d):
-    if d["op"] == "t2":
+    if d["malformed"]: return True
+    if d["two_d"]:
         if len(d["f0"]) != len(d["xs0"]) or any(len(r) != len(d["ys0"]) for r in d["f0"]): return True
         for v in (d["xs0"], d["ys0"]):
             if not (len(v) >= 2 and all(b > a for a, b in zip(v, v[1:]))): return True
@@ -273,13 +458,13 @@ def int_scale(xs, ys, h, c, a, b):
             if x == xs[j] and j > 0 and (j - 1) not in js: js.append(j - 1)
         for j in js:
             dy = abs(ys[j + 1] - ys[j]); ym = max(abs(ys[j]), abs(ys[j + 1]))
-            t += 2 * abs(c) * (5.5 * dy * h[j] + ym * max(abs(u), abs(v), abs(xs[j]), abs(xs[j + 1])))
+            t += 2 * (abs(c) * 5.5 * dy * h[j] + abs(c) * ym * max(abs(u), abs(v), abs(xs[j]), abs(xs[j + 1])))
     return t
 
 
 def walk(d):
     """replays the prefactor history; yields (op, c, n_outputs, natural scales of the outputs)"""
-    if d["op"] == "t2":
+    if d["two_d"]:
         f = [scaled(d["fd"], row) for row in d["f0"]]; mx = max([abs(v) for row in f for v in row] + [0.0]); c = 1.0
         for q in d["ops"]:
             if q[0] == "P": c = q[1]
@@ -289,7 +474,7 @@ def walk(d):
     xs, ys = scaled(d["xd"], d["xs0"]), scaled(d["fd"], d["ys0"]); h, s = steffen_ref(xs, ys); c = 1.0
     def vs(x):
         j = locate_ref(xs, x)
-        return 0.0 if j is None else abs(c) * (abs(ys[j]) + abs(ys[j + 1]) + abs(ys[j + 1] - ys[j]))
+        return 0.0 if j is None else abs(c) * abs(ys[j]) + abs(c) * abs(ys[j + 1]) + abs(c) * abs(ys[j + 1] - ys[j])
     def rs(a, b):
         ja, jb = locate_ref(xs, min(a, b)), locate_ref(xs, max(a, b))
         if ja is None or jb is None: return 0.0
@@ -431,6 +616,8 @@ def pred_1d(c, d, vals):
 
 def pred_2d(c, d, vals):
     out = []; f = [scaled(d["fd"], row) for row in d["f0"]]; flat = [v for row in f for v in row]; k = 0
+    # 32 eps of the largest scaled entry; the four products weight * entry may each lose 2^-1075 to underflow before the prefactor is applied
+    def slack2(cc): return 32 * EPS * (abs(cc) * max(abs(v) for v in flat)) + abs(cc) * 2.0 ** -1070 + 1e-300
     for q, cc, n, sc in walk(d):
         o = vals[k:k + n]; k += n
         if len(o) < n: out.append(("2d:shape", "too few output values")); break
@@ -439,12 +626,12 @@ def pred_2d(c, d, vals):
         if q[0] == "G" and o[0] != hi: out.append(("2d:global-max-reference", f"Global_Maximum = {o[0]!r} under prefactor {cc!r}; largest scaled grid value {hi!r}"))
         if q[0] == "Z":
             if o[1] != hi: out.append(("2d:global-max-reference", f"Global_Maximum = {o[1]!r} under prefactor {cc!r}; largest scaled grid value {hi!r}"))
-            sl = 32 * EPS * abs(cc) * max(abs(v) for v in flat) + 1e-300
+            sl = slack2(cc)
             for v in o[2:-1]:
                 if not (o[0] - sl <= v <= o[1] + sl): out.append(("2d:sample-outside-global", f"an evaluation {v!r} lies outside [Global_Minimum, Global_Maximum] = [{o[0]!r},{o[1]!r}] (prefactor {cc!r})")); break
             if not (o[0] - sl <= o[-1] <= o[1] + sl): out.append(("2d:sample-outside-global-zone", f"an evaluation {o[-1]!r} accepted inside the 1 % extrapolation tolerance lies outside [Global_Minimum, Global_Maximum] = [{o[0]!r},{o[1]!r}] (prefactor {cc!r})"))
         if q[0] == "I":
-            sl = 32 * EPS * abs(cc) * max(abs(v) for v in flat) + 1e-300
+            sl = slack2(cc)
             if not (lo - sl <= o[0] <= hi + sl): out.append(("2d:sample-outside-global", f"Interpolate({q[1]!r},{q[2]!r}) = {o[0]!r} lies outside the global range [{lo!r},{hi!r}]"))
     return out
 
@@ -456,13 +643,13 @@ def predicates(c, io):
         return [] if ee else [(d["op"] + ":exit", "a valid table with limits inside the domain (or its 1 % tolerance) in the right order terminated the process")]
     if ee: return [(d["op"] + ":no-exit", "a malformed table, limits outside the 1 % tolerance or reversed extremum limits were accepted")]
     vals = [C01_tok(t) if not is_int_tok(t) else int(t) for t in io.split()]
-    return pred_2d(c, d, vals) if d["op"] == "t2" else pred_1d(c, d, vals)
+    return pred_2d(c, d, vals) if d["two_d"] else pred_1d(c, d, vals)
 
 
 def nontrivial(c, io):
     if io.startswith(("EXIT", "CRASH")): return False
     d = parse_case(c.line)
-    if d["op"] == "t2": return any(cc < 0 and q[0] not in ("P", "X") for q, cc, n, sc in walk(d))
+    if d["two_d"]: return any(cc < 0 and q[0] not in ("P", "X") for q, cc, n, sc in walk(d))
     xs, ys = scaled(d["xd"], d["xs0"]), scaled(d["fd"], d["ys0"]); vals = io.split(); k = 0
     for q, cc, n, sc in walk(d):
         o = vals[k:k + n]; k += n
